@@ -1,10 +1,85 @@
 import CueVerif.Driver.Proto
+import CueVerif.Spec.Json
+import CueVerif.Model.Json
+/-!
+Protocol handler for C10 (byte strings in hex, "-" = empty):
+
+  str <tok>     what CUE's JSON decoder makes of a string token: `ok <hex>` | `reject`
+                (reject also when the token is not an RFC 8259 string token: json.Valid runs first)
+  scan <tok>    the CUE scanner lexes the token as one clean "…" STRING token: true | false
+  sden <tok>    SPEC: `ok <hex of the denoted string> <wellPaired>` | `invalid`
+  num <tok>     what the decoder makes of a number token and how the encoder prints it back:
+                `<int|float> <hex of Append 'G'>` | `reject`
+  nspec <tok>   SPEC: `<neg> <coeff> <exp> <isFloat>` | `invalid`
+  setstr <s>    apd SetString: `finite <neg> <coeff> <exp> <err>` | `nan <neg> <err>` | `inf <neg> <err>`
+  esc <s>       encoder: hex of internal/encoding/json.Marshal(s)
+  fmt <neg> <coeff> <exp>   encoder: hex of apd Append 'G' of a finite decimal
+-/
 namespace CueVerif.Driver.C10
-open CueVerif CueVerif.Driver
+open CueVerif CueVerif.Driver CueVerif.Json
+
+def kindStr : NumLit.Kind → String
+  | .int => "int"
+  | .float => "float"
+
+def decStr : ApdDec × Bool → String
+  | (.finite neg c e, err) => s!"finite {boolStr neg} {c} {e} {boolStr err}"
+  | (.nan neg, err) => s!"nan {boolStr neg} {boolStr err}"
+  | (.inf neg, err) => s!"inf {boolStr neg} {boolStr err}"
 
 /-- protocol handler for C10: words of one op line (after the property id) → answer -/
 def handle (ws : List String) : String :=
   match ws with
+  | ["str", h] =>
+    match unhex h with
+    | none => "bad-op"
+    | some t =>
+      match parseString t with
+      | none => "reject"
+      | some _ =>
+        match decodeString t with
+        | .ok s => "ok " ++ hex s
+        | .error _ => "reject"
+  | ["scan", h] =>
+    match unhex h with
+    | none => "bad-op"
+    | some t => boolStr (scanStringTok t)
+  | ["sden", h] =>
+    match unhex h with
+    | none => "bad-op"
+    | some t =>
+      match parseString t with
+      | none => "invalid"
+      | some items => "ok " ++ hex (denote items) ++ " " ++ boolStr (wellPaired items)
+  | ["num", h] =>
+    match unhex h with
+    | none => "bad-op"
+    | some t =>
+      match parseNumber t with
+      | none => "reject"
+      | some _ =>
+        match decodeNumber t with
+        | none => "reject"
+        | some (k, d) => kindStr k ++ " " ++ hex (fmtDec d)
+  | ["nspec", h] =>
+    match unhex h with
+    | none => "bad-op"
+    | some t =>
+      match parseNumber t with
+      | none => "invalid"
+      | some n => s!"{boolStr n.neg} {n.coeff} {n.exponent} {boolStr n.isFloat}"
+  | ["setstr", h] =>
+    match unhex h with
+    | none => "bad-op"
+    | some s => decStr (apdSetString s)
+  | ["esc", h] =>
+    match unhex h with
+    | none => "bad-op"
+    | some s => hex (jsonEscape s)
+  | ["fmt", neg, c, e] =>
+    match c.toNat?, parseInt? e with
+    | some c, some e => hex (fmtG (neg == "1") c e)
+    | _, _ => "bad-op"
   | _ => "bad-op"
 
 end CueVerif.Driver.C10
